@@ -132,9 +132,14 @@ pub enum Value<'a> {
 
 impl<'a> Value<'a> {
     /// Clones the value, placing any array backing stores in the given arena.
-    /// Strings use zero-cost clone. Numbers/bools/null are trivial copies.
+    /// Borrowed strings use zero-cost clone. Numbers/bools/null are trivial copies.
+    /// Owned strings are copied: their owner may be overwritten or go out of scope,
+    /// which recycles its pool slot or resets its frame, while the clone is still in use.
     fn clone_into(&self, arena: &'a Arena) -> Self {
         match self {
+            Value::Str(ArenaCow::Owned(s)) => {
+                Value::Str(ArenaCow::Owned(ArenaString::from_str(arena, s)))
+            }
             Value::Str(cow) => Value::Str(cow.clone()),
             Value::Number(n) => Value::Number(*n),
             Value::Bool(b) => Value::Bool(*b),
